@@ -162,7 +162,7 @@ def build_case(r, pfx, op, b2, flavour="dist", addr=None, small_payload=True, ic
             regs["BA"] = (regs["BA"] & 0xFF00) | (r.randrange(10) << 4) | r.randrange(10)
     elif flavour == "boundary":
         regs = {"BA": r.choice((0, 0xFFFF, 0x00FF, 0xFF00, 0x8000)),
-                "I": icount or (r.choice((1, 2, 3)) if mn in COUNTED else 1),
+                "I": icount if icount is not None else (r.choice((1, 2, 3)) if mn in COUNTED else 1),
                 "X": r.choice((0xFFFFF, 0xFFFFE, 0, 1, 0x0FFFF, 0x10000)),
                 "Y": r.choice((0xFFFFF, 0xFFFFD, 0, 2, 0x7FFFF)),
                 "U": r.choice((0xFFFFF, 3, 0, 0x10001)), "S": r.choice((0xFFFFF, 0xFFFF0, 4, 0, 8)),
